@@ -363,6 +363,9 @@ func CheckSendJoinResponse(
 	// auth events by ID only, we will build a map which contains references
 	// to all of the auth events.
 	for i, event := range authEvents {
+		if prev, ok := eventsByID[event.EventID()]; ok && event.Redacted() && !prev.Redacted() {
+			continue // see below
+		}
 		eventsByID[event.EventID()] = authEvents[i]
 	}
 
